@@ -432,7 +432,7 @@ func main() {
 		return
 	}
 	rep = report.New("C14", tier, "model_checking")
-	rep.Rule = "E1: 15 polygonal shapes (boxes, triangles, L, C, pentagon, holes in both windings and closed spelling, multi-polygons, island in hole) as Polygon / MultiPolygon / *Bounds x every simple open polyline of 2 and 3 vertices over the lattice (i+.37, j+.41), i,j in {-1,1,3,5,7} (thorough: -1..7), plus two-member multi-line strings; every simple polyline of 4 and 5 vertices over the coarse lattice {-1,3,7}^2 (detours outside the bounding box; 5 vertices against 6 shapes, thorough all); the same pairs again with both operands rotated by 30 degrees and scaled by 1.7 (irrational coordinates, lengths scale by 1.7); pairs not in general position (exact test) or with a piece shorter than 1e-7 are skipped and counted. Oracle: reference inside length from exact crossing tests + even-odd classification of every piece; Length(result) equal (rel 1e-9); every result vertex within 1e-9 of the line and inside or on the polygon; empty iff the reference length is 0; the polygon argument is not modified; the same clip twice more with both operands cut from flat vertex buffers (same result, buffers not written, first result intact); clip sequences on one shared polygon value, also after the value has been moved in place (history). Non-trivial = lines partly inside."
+	rep.Rule = "E1: 15 polygonal shapes (boxes, triangles, L, C, pentagon, holes in both windings and closed spelling, multi-polygons, island in hole) as Polygon / MultiPolygon / *Bounds x every simple open polyline of 2 and 3 vertices over the lattice (i+.37, j+.41), i,j in {-1,1,3,5,7} (thorough: -1..7), plus two-member multi-line strings; x-monotone zigzag lines of 63..200 vertices; every simple polyline of 4 and 5 vertices over the coarse lattice {-1,3,7}^2 (detours outside the bounding box; 5 vertices against 6 shapes, thorough all); the same pairs again with both operands rotated by 30 degrees and scaled by 1.7 (irrational coordinates, lengths scale by 1.7); pairs not in general position (exact test) or with a piece shorter than 1e-7 are skipped and counted. Oracle: reference inside length from exact crossing tests + even-odd classification of every piece; Length(result) equal (rel 1e-9); every result vertex within 1e-9 of the line and inside or on the polygon; empty iff the reference length is 0; the polygon argument is not modified; the same clip twice more with both operands cut from flat vertex buffers (same result, buffers not written, first result intact); clip sequences on one shared polygon value, also after the value has been moved in place (history). Non-trivial = lines partly inside."
 	var lattice []exact.Pt
 	step := int64(2)
 	if tier == "thorough" {
@@ -537,6 +537,32 @@ func main() {
 					c := Case{Shape: si, Cast: ct, Lines: [][]exact.Pt{long[i]}}
 					if sym, det := runCase(c); sym != "" {
 						rep.Violation(fmt.Sprintf("LineString.Clip|%s|%s|detour|%s", ct, s.Name, sym), map[string]interface{}{"case": c, "observed": det})
+					}
+				}
+			}
+		})
+	}
+	// long lines: x-monotone zigzags of 64..200 vertices (an implementation may
+	// process long lines in runs), full height and inside the unit cells
+	{
+		var long [][]exact.Pt
+		for _, nv := range []int{63, 64, 65, 66, 128, 129, 130, 200} {
+			step := int64(8000 / nv)
+			for _, amp := range [][2]int64{{-1000 + 410, 7000 + 410}, {2000 + 410, 3000 + 410}} {
+				l := make([]exact.Pt, nv)
+				for k := range l {
+					l[k] = exact.Pt{X: -1000 + 370 + int64(k)*step, Y: amp[k%2]}
+				}
+				long = append(long, l)
+			}
+		}
+		rep.Set("long_lines", len(long))
+		enum.Parallel(len(long), rep.Expired, func(i int) {
+			for si, s := range cat {
+				for _, ct := range casts(s) {
+					c := Case{Shape: si, Cast: ct, Lines: [][]exact.Pt{long[i]}}
+					if sym, det := runCase(c); sym != "" {
+						rep.Violation(fmt.Sprintf("LineString.Clip|%s|%s|long-line|%s", ct, s.Name, sym), map[string]interface{}{"case": c, "observed": det})
 					}
 				}
 			}
